@@ -175,8 +175,20 @@ struct WorldSim {
 		size_t served0 = bw.served.size(), conns0 = N.conns.size();
 		KSI_Signature *sig = (KSI_Signature *)(uintptr_t)0x5151;
 		K.api_begin("sign");
-		int res = KSI_Signature_signAggregated(ctx, dh, level, &sig);
-		K.ev("SIGN level=%llu -> 0x%x", (unsigned long long)level, res);
+		// API variants of the same operation: signAggregated (macro over ...WithPolicy with a NULL context), KSI_createSignature and
+		// KSI_Signature_signWithPolicy (level 0), ...WithPolicy with an initialised verification context
+		int variant = (int)(op.arg(10) % 4);
+		if (variant == 1 || variant == 2) level = 0;
+		int res;
+		if (variant == 1) res = KSI_createSignature(ctx, dh, &sig);
+		else if (variant == 2) res = KSI_Signature_signWithPolicy(ctx, dh, KSI_VERIFICATION_POLICY_INTERNAL, NULL, &sig);
+		else if (variant == 3) {
+			KSI_VerificationContext vc;
+			KSI_VerificationContext_init(&vc, ctx);
+			res = KSI_Signature_signAggregatedWithPolicy(ctx, dh, level, KSI_VERIFICATION_POLICY_INTERNAL, &vc, &sig);
+			KSI_VerificationContext_clean(&vc);
+		} else res = KSI_Signature_signAggregated(ctx, dh, level, &sig);
+		K.ev("SIGN/%d level=%llu -> 0x%x", variant, (unsigned long long)level, res);
 		KSI_DataHash_free(dh);
 		bw.disarm();
 		after_call("sign", served0, transfer_to > 0);
@@ -420,6 +432,7 @@ struct WorldSim {
 		base.k = conf ? "CONFIG" : ext ? "EXTEND" : "SIGN";
 		if (ext) { base.a.resize(10); base.a[1] = op.arg(1) % 3 == 0 ? 0 : 1; base.a[8] = 1; base.a[9] = 0; }
 		size_t stride = (size_t)std::max<int64_t>(1, op.arg(10, 13)), phase = (size_t)op.arg(11) % stride;
+		if (!ext && !conf && base.a.size() > 10) base.a[10] = op.arg(0) % 4;   // API variant of the swept signing call
 		size_t approx_bits = 8 * 1400;
 		for (size_t bit = phase; bit < approx_bits; bit += stride) {
 			if (conf) op_config(base, (int)bit); else if (ext) op_extend(base, (int)bit); else op_sign(base, (int)bit);
@@ -521,6 +534,7 @@ struct WorldEngine : run::Engine {
 				env_args(op.a);
 				op.a.push_back((int64_t)g.below(64));
 				op.a.push_back((int64_t)g.below(64));
+				op.a.push_back(g.chance(1, 2) ? 0 : (int64_t)g.range(1, 3));
 			}
 			p.ops.push_back(op);
 		}
